@@ -386,6 +386,12 @@ def negate_cond(x):
             return Rat.atom(cmp_atom("Eq", args[0], 0))
         if name == "gt0" and a in INT_ATOMS:      # !(d > 0)  <=>  1 - d > 0 over the integers
             return Rat.atom(cmp_atom("Gt", 1 - _r(args[0]), 0, integer=True))
+    if a in REG and REG[a][0] in ("or", "and"):
+        # De Morgan, when every part has a canonical negation (so that guard-clause and nested spellings coincide)
+        parts = [negate_cond(x) for x in REG[a][1]]
+        if not any(str(q) in REG and REG[str(q)][0] == "not" for q in parts):
+            p0, p1 = sorted(parts, key=str)
+            return fn_atom("and" if REG[a][0] == "or" else "or", p0, p1)
     if a == "true":
         return Rat.atom("false")
     if a == "false":
@@ -740,6 +746,9 @@ class Sym:
                 if c.get("k") == "letx":
                     # `if let Some(x) = <param>`: parameter guard with a binding
                     src = Norm(self.c, env).place_name(c["init"]) if strip(c["init"]).get("k") in ("field", "local") else str(self._norm(st, env).norm(c["init"]))
+                    i0 = strip(c["init"])
+                    if i0.get("k") == "local" and i0["hid"] in env and len(env[i0["hid"]].atoms()) == 1 and str(env[i0["hid"]]) in env[i0["hid"]].atoms():
+                        src = str(env[i0["hid"]])       # `let decay = self.decay; if let Some(d) = decay`: the guard is about self.decay
                     binds = pat_binds(c["pat"])
                     env_t = dict(env)
                     for nm, hid in binds:
